@@ -15,11 +15,14 @@ pub struct CodecOptions {
 
 impl Default for CodecOptions {
     fn default() -> Self {
+        // Acquire the global config once: temporaries in a struct expression live until the end of the
+        // statement, so one acquisition per field would nest read guards
+        let config = global_config();
         Self {
-            validate_checksums: global_config().validate_checksums(),
-            store_empty_chunks: global_config().store_empty_chunks(),
-            concurrent_target: global_config().codec_concurrent_target(),
-            experimental_partial_encoding: global_config().experimental_partial_encoding(),
+            validate_checksums: config.validate_checksums(),
+            store_empty_chunks: config.store_empty_chunks(),
+            concurrent_target: config.codec_concurrent_target(),
+            experimental_partial_encoding: config.experimental_partial_encoding(),
         }
     }
 }
@@ -115,11 +118,12 @@ impl CodecOptionsBuilder {
     /// Create a new encode options builder.
     #[must_use]
     pub fn new() -> Self {
+        let config = global_config();
         Self {
-            validate_checksums: global_config().validate_checksums(),
-            store_empty_chunks: global_config().store_empty_chunks(),
-            concurrent_target: global_config().codec_concurrent_target(),
-            experimental_partial_encoding: global_config().experimental_partial_encoding(),
+            validate_checksums: config.validate_checksums(),
+            store_empty_chunks: config.store_empty_chunks(),
+            concurrent_target: config.codec_concurrent_target(),
+            experimental_partial_encoding: config.experimental_partial_encoding(),
         }
     }
 
